@@ -150,8 +150,12 @@ def run_case(case: dict) -> dict:
             sensitive = sensitive or _recompute_differs(ref, st, t)
         counters["states queried"] = 3
         # simulations start from the resolved initial conditions by default
-        sim.simulate(0.125, steps=2)
-        res = sim.get_result().value
+        try:
+            with core.time_limit(5):
+                sim.simulate(0.125, steps=2)
+                res = sim.get_result().value
+        except core.TimeLimit:
+            res = Exception("budget")
         if not isinstance(res, Exception):
             first = res.get_variables(include_derived_variables=False, include_readouts=False, include_surrogate_variables=False).iloc[0].to_dict()
             if any(not core.close(first[k], exp_ic[k]) for k in exp_ic):
